@@ -431,6 +431,8 @@ def run_scenario(task):
                 if len(cenv.observations) != len(env.observations):
                     mism.append('observation count %d vs %d' % (len(cenv.observations), len(env.observations)))
                 for (l1, v1), (l2, v2) in zip(env.observations, cenv.observations):
+                    if _has_numeric_uf(v1):
+                        continue      # the model gives inverse / sqrt / exp / withheld products arbitrary values
                     sv = _val(model, v1)
                     if not _close(sv, v2):
                         mism.append('%s: symbolic %r real %r' % (l1, sv, v2))
@@ -442,6 +444,30 @@ def run_scenario(task):
                 res['tv_skipped'] += 1
             else:
                 res['validated'] += 1
+
+        def _has_numeric_uf(v):
+            import numpy as np
+            if isinstance(v, (core.SV, core.SB)):
+                stack, ids = [core.lift(v)], set()
+                while stack:
+                    t = stack.pop()
+                    if t.get_id() in ids:
+                        continue
+                    ids.add(t.get_id())
+                    if z3.is_app(t):
+                        nm = str(t.decl().name())
+                        if t.decl().kind() == z3.Z3_OP_UNINTERPRETED and (
+                                (t.num_args() > 0 and ('fn_' in nm or nm.startswith('inv'))) or nm.startswith(('pur!', 'nl!'))):
+                            return True
+                        stack.extend(t.children())
+                return False
+            if isinstance(v, np.ndarray):
+                return any(_has_numeric_uf(x) for x in v.reshape(-1))
+            if isinstance(v, (list, tuple)):
+                return any(_has_numeric_uf(x) for x in v)
+            if isinstance(v, dict):
+                return any(_has_numeric_uf(x) for x in v.values())
+            return False
 
         def _decls(ctx):
             seen = {}
